@@ -330,6 +330,68 @@ def r5(p, rep):
     rep.ok("C06.R5", "summary", "", f"{n} functions without mutable defaults; {len(memo_writes)} memo writes inventoried (informational)")
 
 
+def r6(p, rep, parts=("reads-only", "leaves")):
+    rep.rule("C06.R6", "freezing the arguments for the cache key neither modifies them nor rewrites strings / scalars (the frozen values are also what the traced function receives)", "T-EFF on the parameter + T-EXH over the converted kinds", floor=len(parts))
+    f = p.func("_freeze_value", "util.lru_cache")
+    x = f.params[0]
+    site = f.loc
+    if "reads-only" in parts:
+        muts = []
+        for n in ast.walk(f.node):
+            if isinstance(n, (ast.Assign, ast.AugAssign, ast.Delete)):
+                tg = n.targets if isinstance(n, (ast.Assign, ast.Delete)) else [n.target]
+                for t in tg:
+                    for y in ast.walk(t):
+                        if isinstance(y, (ast.Attribute, ast.Subscript)) and common.chain_root_name(y) == x:
+                            muts.append(n)
+            if isinstance(n, ast.Call) and isinstance(n.func, ast.Attribute) and common.chain_root_name(n.func.value) == x and n.func.attr in ("sort", "append", "extend", "clear", "pop", "update", "setflags", "resize", "fill", "put", "itemset", "setdefault", "remove", "insert", "reverse", "add", "discard"):
+                muts.append(n)
+        rep.add("C06.R6", f"{f.qualname}:reads-only", site, not muts, f"`{x}` is only read" if not muts else f"`{norm(muts[0])[:70]}` modifies the caller's object while building the cache key (e.g. a numpy array passed as a size or option comes back read-only / changed)")
+    if "leaves" in parts:
+        ALLOWED = {"ndarray", "list", "tuple", "dict", "SimpleNamespace", "Parameter", "set", "frozenset", "generic"}
+        cfg = CFG(f.node)
+        bad = []
+        n_arms = 0
+        for r in walk_no_nested(f.node):
+            if not isinstance(r, ast.Return) or r.value is None:
+                continue
+            classes = set()
+            for t, pol in cfg.guards_of_ast(r):
+                if pol and isinstance(t, ast.Call) and norm(t.func) == "isinstance" and len(t.args) == 2 and norm(t.args[0]) == x:
+                    stack = [t.args[1]]
+                    while stack:
+                        c = stack.pop()
+                        if isinstance(c, ast.BinOp) and isinstance(c.op, ast.BitOr):
+                            stack += [c.left, c.right]
+                        elif isinstance(c, ast.Tuple):
+                            stack += list(c.elts)
+                        else:
+                            classes.add(norm(c).split(".")[-1])
+            n_arms += 1
+            identity = isinstance(r.value, ast.Name) and r.value.id == x
+            if classes - ALLOWED and not identity:
+                bad.append((sorted(classes - ALLOWED), r))
+            if not classes and not identity:
+                bad.append((["<anything else>"], r))
+        rep.add("C06.R6", f"{f.qualname}:leaves-unchanged", site, not bad, f"{n_arms} arms: only arrays / containers / namespaces are converted, every other value is returned as it is" if not bad else f"values of kind {bad[0][0]} are rewritten (`{norm(bad[0][1])[:60]}`): the traced function and the error messages then see a different value than the caller passed (e.g. a description with collapsed whitespace)")
+
+
+def r7(p, rep):
+    rep.rule("C06.R7", "__hash__ of every class uses only what its __eq__ compares (equal objects hash equally: sets / dict keys / caches work on them)", "T-SIB (__eq__ vs __hash__) over all classes of the package", floor=10)
+    for c in p.classes.values():
+        if any(c.module.name == m for m in common.OFF_PATH_MODULES):
+            continue
+        h, e = c.methods.get("__hash__"), c.methods.get("__eq__")
+        if h is None or e is None or not h.node.args.args or len(e.node.args.args) < 2:
+            continue
+        hs, es, eo = h.node.args.args[0].arg, e.node.args.args[0].arg, e.node.args.args[1].arg
+        used = {y.attr for y in ast.walk(h.node) if isinstance(y, ast.Attribute) and isinstance(y.value, ast.Name) and y.value.id == hs and not isinstance(getattr(y, "_parent", None), ast.Call) or False}
+        used = {y.attr for y in ast.walk(h.node) if isinstance(y, ast.Attribute) and isinstance(y.value, ast.Name) and y.value.id == hs and not (isinstance(getattr(y, "_parent", None), ast.Call) and getattr(y, "_parent").func is y)}
+        compared = {y.attr for y in ast.walk(e.node) if isinstance(y, ast.Attribute) and isinstance(y.value, ast.Name) and y.value.id in (es, eo)}
+        extra = used - compared
+        rep.add("C06.R7", f"{c.qualname}:hash-subset-of-eq", f"{c.module.rel}:{h.node.lineno}", not extra, f"__hash__ uses {sorted(used)}, all compared by __eq__" if not extra else f"__hash__ uses {sorted(extra)}, which __eq__ ignores: two equal objects land in different hash buckets, so a set / dict of them keeps both (e.g. the set of candidate output expressions no longer collapses equal inputs and 'b... c, b... c' is rejected as ambiguous)")
+
+
 def run(p, rep, tier):
     rep.rule("C06.R1", "cache-key classes compare and hash everything they hold", "T-SIB (__init__ vs __eq__ vs __hash__)", floor=30)
     r1(p, rep)
@@ -340,5 +402,10 @@ def run(p, rep, tier):
     c13.r1(p, rep)
     r4(p, rep)
     r5(p, rep)
+    r6(p, rep)
+    r7(p, rep)
+    from . import c11
+
+    c11.r3(p, rep)  # a name table that is rebound when a lazily registered factory runs makes lookups depend on history
     rep.assume("functools.cache does not cache exceptions (a call that raised leaves no cache entry)")
     rep.info["undecided"] = "equality of outcomes over all call histories; only the structural clauses about keys, stacks and surviving state are decided"
